@@ -68,3 +68,38 @@ def KTable.cell? (t : KTable K V) (k : K) (j : Nat) : Option (Option V) :=
 end merge
 
 end Prs
+
+namespace Prs
+/-! ### the code's own shape: a left fold of pandas.merge over the list, for every `how`
+
+`multimerge` is `reduce(lambda l, r: pd.merge(l, r, ..., how=how), dfs)`.  `mergeTwo` is one such step on uniquely keyed tables
+and `multimergeFold` the fold.  For `outer` and `inner` the fold equals the direct description `mergeTables` (Proofs/MergeFold);
+for `left` it keeps the keys of the first table with every table's cells beside them; for `right` the keys of the last table. -/
+
+inductive JoinHow where
+  | outer | inner | left | right
+  deriving DecidableEq, Repr
+
+section fold
+variable {K V : Type} [DecidableEq K]
+
+/-- one `pd.merge(a, b, on=key, how=how)` on uniquely keyed tables -/
+def mergeTwo (how : JoinHow) (a b : KTable K V) : KTable K V :=
+  let keys := match how with
+    | .outer => dedup (a.keys ++ b.keys)
+    | .inner => (dedup a.keys).filter fun k => b.keys.contains k
+    | .left => dedup a.keys
+    | .right => dedup b.keys
+  { cols := a.cols ++ b.cols, rows := keys.map fun k => (k, cellsFor a k ++ cellsFor b k) }
+
+/-- `reduce(merge, tables)` (`none` for an empty list: Python's reduce raises) -/
+def multimergeFold (how : JoinHow) : List (KTable K V) → Option (KTable K V)
+  | [] => none
+  | t :: ts => some (ts.foldl (mergeTwo how) t)
+
+/-- `multimerge(dfs, on, suffixes, how=how)` as the code computes it -/
+def multimergeHow (how : JoinHow) (suffixes : Option (List (List Char))) (tables : List (KTable K V)) :
+    Option (KTable K V) := multimergeFold how (suffixed suffixes tables)
+
+end fold
+end Prs
